@@ -161,7 +161,7 @@ FAMILIES["cluster"] = {
     "name": "cluster", "props": ["C03", "C04", "C05"], "models": "Cursor.v (probe schedule); detection bound of Cursor_proofs.v",
     "harness": COMMON + ["zz_vf_cluster_test.go"], "test": "TestVfCluster",
     "n": {"quick": 24, "thorough": 1200},
-    "no_shrink": True,
+    "no_shrink": True, "env": {"VF_SHARD": "40"},
     "codes": [(520, 529, ["C05"]), (530, 539, ["C03"]), (540, 549, ["C04"])],
     "code_names": {1: "undecodable case", 2: "recorded suspicionTimeout is not what util.go computes",
                    60: "probe cursor: the next probe differs from the Cursor model (stable membership)",
